@@ -2,14 +2,16 @@
 See checks/cache_common.py and spec/cache/Cache.tla (ViewEqIdeal).  This check
 reports the view clauses: after every mutating call the six read-type calls on
 every path answer as the ideal tree does; a Reader must return what ReadFile returns;
-a child view of the cache must answer exactly as the cache does for the same node."""
+a child view of the cache must answer exactly as the cache does for the same node.Histories go on through D_OrderLost (commit-only): ViewEqIdealOL; a three-level spine
+(a, a/b, a/b/a, a/b/b) so that "write below a/b, remove a recursively, write below a/b again"
+is read back; names also instantiated as sub / sub.old."""
 import vlib
 from checks import cache_common
 
 MANIFEST = dict(
     technique='TLA+ implementation model of the cache view (buffer-first lookup, merged listings) against a ghost ideal tree with named deviation triggers, checked by TLC (ViewEqIdeal); every model transition and simulated deep behaviours replayed on the real Cache, all read-type calls on all paths compared',
     text='For every reachable clean state of the bounded model TLC shows that exists/is-file/is-dir/read/list/stat through the cache equal the ideal tree; every transition is replayed on the real cache and the same six calls on every path of the universe are compared with the ideal (verdict) and with the implementation model (binding). Inside a trigger region the real answers must equal the ideal or the documented deviation.',
-    note='Open findings (known_findings.json): D_RemoveRemote (removed remote nodes stay visible), D_OrderLost, D_AcceptsRejected (IsFile and IsDir both true after a type-conflicting write), D_RejectsAccepted, D_FailedJournaled, D_DirCopy, D_SplitCopy (a directory copied from a source that exists in the buffer lacks the children only the remote has). Every view comparison also opens a Reader, which must return what ReadFile returns. Child views of the cache are covered by C03 (confinement) only.')
+    note='Open findings (known_findings.json): D_RemoveRemote (removed remote nodes stay visible; D_RemoveRemoteDir), D_OrderLost, D_AcceptsRejected (IsFile and IsDir both true after a type-conflicting write), D_RejectsAccepted, D_FailedJournaled, D_DirCopy, D_SplitCopy (a directory copied from a source that exists in the buffer lacks the children only the remote has). Every view comparison also opens a Reader, which must return what ReadFile returns. Child views of the cache are covered by C03 (confinement) only.')
 
 
 def run(ctx):
